@@ -68,11 +68,24 @@ pub fn class(input: Node) -> (r: Result<Class, VErr>)
 {{
 {render(b, 1)}
 }}
+
+// ---- the property's side of class identity (known finding D114): methods are registered under `FILE#Class::method`, one table per file.  Two classes of the same
+// name in one file -- legal when they sit in different function bodies, where neither name is in the other's scope -- therefore share their methods, the later
+// definition winning.  A declaration would have to be refused when the FILE (not only the scope) already declares a class of that name; nothing asks the file.
+pub uninterp spec fn file_declares_other_class(n: &Node, name: &VStr) -> bool;
+//@ OBL C08.class.name-unique-in-file
+pub fn class_kf(input: Node) -> (r: Result<Class, VErr>)
+    requires node_children(&input).len() >= 3
+    ensures r is Ok ==> !file_declares_other_class(&input, &r->Ok_0.ident.name),
+{{
+{render(b, 1)}
+}}
 }} // verus!
 fn main() {{}}
 """
-    return gen, [Obl("C10.class.name-const", ["C10"], fn="Parser::class", desc="Parser::class: the class's identifier is read-only at every registration (own scope, enclosing scope) and in the returned declaration")], log
+    return gen, [Obl("C08.class.name-unique-in-file", ["C08"], fn="Parser::class", desc="KF twin (D114): a class is accepted only if its file declares no other class of that name (methods are registered per file under Class::method)"),
+                 Obl("C10.class.name-const", ["C10"], fn="Parser::class", desc="Parser::class: the class's identifier is read-only at every registration (own scope, enclosing scope) and in the returned declaration")], log
 
 
-UNITS = [VUnit("c10_class", ["C10"], "a class name is const wherever it is visible", build)]
+UNITS = [VUnit("c10_class", ["C10", "C08"], "a class name is const wherever it is visible", build)]
 UNITS[0].assumes = ["pest API, sub-parsers, type registry abstract; the two registrations are abstract callees whose PRECONDITION is the const flag", "child count from the grammar: with only two children (no flags) the third `next().unwrap()` would not be reached -- the precondition is the longer form's count"]
